@@ -32,7 +32,7 @@ func newStormScript(rigName string, index int, rng *rand.Rand) *fscript {
 
 func stormCases() []kase {
 	var cases []kase
-	n := run.Pick(40, 600)
+	n := run.Pick(80, 800)
 	for _, rigName := range []string{"S", "T"} {
 		for i := 0; i < n; i++ {
 			rigName, i := rigName, i
